@@ -56,8 +56,12 @@ def tg_token(key):
 
 
 def ct_token(key):
-    ids, tgk = key
-    return 'T' + md5(repr((tuple(ids), tg_token(tgk))))
+    try:
+        ids, tgk = key
+        return 'T' + md5(repr((tuple(ids), tg_token(tgk))))
+    except Exception:
+        # not the (descriptor ids, table group key) pair the model expects
+        return 'X' + md5(repr(key))
 
 
 def tg_keys_now():
